@@ -364,10 +364,17 @@ class ND:
         return sub
 
     def __setitem__(self, idx, val):
+        if (idx == slice(None) or idx is Ellipsis) and isinstance(val, ND) and val.shape == self.shape:
+            self.data = dict(val.data)          # x[:] = y: every component replaced
+            return
         key = self._strip(idx)
         if len(key) != len(self.shape):
             raise TraceAbort('partial assignment into tensor')
         self.data[key] = E.lift(val)
+
+    @property
+    def T(self):
+        return self.transpose()
 
     def transpose(self, *a):
         r = ND(self.shape, self.data, grid_first=not self.grid_first)
@@ -533,6 +540,29 @@ class NP:
     @staticmethod
     def ascontiguousarray(x):
         return x
+
+    @staticmethod
+    def multiply(a, b, **k):
+        return a * b
+
+    @staticmethod
+    def add(a, b, **k):
+        return a + b
+
+    @staticmethod
+    def subtract(a, b, **k):
+        return a - b
+
+    @staticmethod
+    def divide(a, b, **k):
+        return a / b
+
+    @staticmethod
+    def moveaxis(x, src, dst):
+        # the grid axis moved from first to last (or back): the same tensor with the other orientation
+        if isinstance(x, ND) and ((src, dst) in ((0, -1), (-1, 0))):
+            return x.transpose()
+        raise TraceAbort('np.moveaxis(%r, %r)' % (src, dst))
 
     @staticmethod
     def column_stack(xs):
